@@ -305,6 +305,9 @@ def _get_numpy_value(
     """
     if val is None:
         return None
+    if val.is_graph_input():
+        # An initializer that is also a graph input is only a default the caller may override.
+        return None
     const_value = val.const_value
     if const_value is not None:
         if dtype is not None and const_value.dtype != dtype:
@@ -1479,6 +1482,9 @@ def _clear_unused_initializers(values: Sequence[ir.Value]) -> None:
     # Detach all inputs to the node, then check for unused initializers
     for value in values:
         if value is None or not value.is_initializer():
+            continue
+        if value.is_graph_input():
+            # Keep the default value of an overridable graph input
             continue
 
         if (not value.uses()) and (not value.is_graph_output()):
